@@ -54,6 +54,24 @@ theorem expandWordMultiple_eq_spec (env : Env) (w : Word) :
       exact splitWith_eq_specFields _ f
     simp only [h]
 
+/-- Multi-word assembly (`expand_words`: `for` lists, array assignments, command arguments): the
+    fields of a word list are those of the POSIX pipeline word by word, in order, each word expanded
+    in the environment its predecessors left; the first error stops the list. -/
+theorem expandWords_eq_spec (ws : List Word) :
+    ∀ env : Env, expandWords env ws = specExpandWords env ws := by
+  induction ws with
+  | nil => intro env; rfl
+  | cons w ws ih =>
+    intro env
+    simp only [expandWords, specExpandWords, expandWordMultiple_eq_spec]
+    rcases specExpandWordMultiple env w with ⟨env', r⟩
+    cases r with
+    | error e => rfl
+    | ok fs =>
+      simp only
+      rw [ih env']
+      rfl
+
 /-- ★ Splitting partitions the input: (1) the fields, concatenated, are exactly the non-IFS
     characters in their original order (nothing lost, duplicated or reordered; every separator
     dropped); (2) no field contains an IFS character; (3) an empty field `k..k` arises only at a
@@ -252,6 +270,97 @@ theorem dquote_at_zero_params (env : Env) (h : env.pos = []) :
 example : (expandWordMultiple
     { vars := [], pos := ["a b".toList, [], ":".toList], nounset := true, exitStatus := 0, arg0 := [] }
     wordDqAt).2 = .ok ["a b".toList, [], ":".toList] := by rw [dquote_at_fields]
+
+/-- In a single-field context (scalar assignment `v=…`, declaration utilities, here-documents:
+    `expand_word`) `"$*"` and `"$@"` both give the positional parameters joined by the first
+    character of IFS (a space when IFS is unset, nothing when it is empty), for every environment
+    and any number of parameters. -/
+theorem single_field_dquote_params (env : Env) :
+    expandWordSingle env wordDqStar = (env, .ok (joinStrings (sepChar env) env.pos)) ∧
+    expandWordSingle env wordDqAt = (env, .ok (joinStrings (sepChar env) env.pos)) := by
+  constructor
+  · have h1 : expandWord env true wordDqStar
+        = (env, .ok (.field (quoteField (joinWith (ifsSeparator env) (env.pos.map toField))))) := by
+      simp only [wordDqStar, expandWord, expandWordUnit, Text.isNil, expandTextGo, expandTextUnit,
+        resolve, expandParam]
+      simp [finishParam, intoPhrase, Phrase.ifsJoin, Phrase.zeroFields, Phrase.append,
+        doubleQuote, expandWordGo]
+    simp only [expandWordSingle, h1, Phrase.ifsJoin, ifsSeparator_eq]
+    rw [removeQuotes_quoteField _ (joinWith_not_quoting _ _), joinWith_values]
+  · have h1 : expandWord env true wordDqAt
+        = (env, .ok (.full (env.pos.map (fun p => quoteField (toField p))))) := by
+      simp only [wordDqAt, expandWord, expandWordUnit, Text.isNil, expandTextGo, expandTextUnit,
+        resolve, expandParam]
+      simp only [Option.isNone, Bool.false_and, Bool.false_eq_true, if_false, finishParam]
+      have hne : (Param.at == Param.star) = false := by decide
+      simp only [hne, Bool.and_false, Bool.false_eq_true, if_false, intoPhrase, Phrase.zeroFields]
+      cases hp : env.pos with
+      | nil => simp [Phrase.append, doubleQuote, expandWordGo]
+      | cons a t => simp [Phrase.append, doubleQuote, expandWordGo]
+    simp only [expandWordSingle, h1, Phrase.ifsJoin, ifsSeparator_eq]
+    rw [removeQuotes_joinWith_fields]
+    have : (env.pos.map (fun p => quoteField (toField p))).map removeQuotesAndStrip = env.pos := by
+      simp [Function.comp_def, removeQuotes_quoteField_toField]
+    rw [this]
+
+/-! ## The braced-parameter lexer -/
+
+/-- The `${#…}` ambiguity is resolved as XCU 2.6.2 requires: `${#}` is `$#`; `${##}`, `${#-}`,
+    `${#?}` are the lengths of `$#`, `$-`, `$?`; `${#x}` is a length and `${x#p}` a trim; `${#-w}`,
+    `${#:-w}`, `${##p}`, `${#%p}` apply a switch/trim to `$#`; a length prefix together with a suffix
+    modifier is an error.  (Finite table of the special cases, checked by evaluation.) -/
+theorem lex_hash_forms :
+    (lexBraced false "#}".toList).map (fun b => (b.id, b.modifier)) = .ok (['#'], .none) ∧
+    (lexBraced false "##}".toList).map (fun b => (b.id, b.modifier)) = .ok (['#'], .length) ∧
+    (lexBraced false "#-}".toList).map (fun b => (b.id, b.modifier)) = .ok (['-'], .length) ∧
+    (lexBraced false "#?}".toList).map (fun b => (b.id, b.modifier)) = .ok (['?'], .length) ∧
+    (lexBraced false "#x}".toList).map (fun b => (b.id, b.modifier)) = .ok (['x'], .length) ∧
+    (lexBraced false "x#p}".toList).map (fun b => (b.id, b.modifier)) = .ok (['x'], .trim '#' false ['p']) ∧
+    (lexBraced false "#-w}".toList).map (fun b => (b.id, b.modifier)) = .ok (['#'], .switch false '-' ['w']) ∧
+    (lexBraced false "#:-w}".toList).map (fun b => (b.id, b.modifier)) = .ok (['#'], .switch true '-' ['w']) ∧
+    (lexBraced false "##p}".toList).map (fun b => (b.id, b.modifier)) = .ok (['#'], .trim '#' false ['p']) ∧
+    (lexBraced false "#%p}".toList).map (fun b => (b.id, b.modifier)) = .ok (['#'], .trim '%' false ['p']) ∧
+    (lexBraced false "#x-w}".toList).map (fun b => (b.id, b.modifier)) = .error .multipleModifier ∧
+    (lexBraced false "x:#p}".toList).map (fun b => (b.id, b.modifier)) = .error .invalidModifier ∧
+    (lexBraced false "00}".toList).map (fun b => (b.id, b.param)) = .ok (['0', '0'], .pos 0) ∧
+    (lexBraced false "10}".toList).map (fun b => (b.id, b.param)) = .ok (['1', '0'], .pos 10) ∧
+    (lexBraced false "0}".toList).map (fun b => (b.id, b.param)) = .ok (['0'], .zero) ∧
+    (lexBraced true "@-w}".toList).map (fun b => (b.id, b.modifier)) = .error .nonPortable :=
+  ⟨rfl, rfl, rfl, rfl, rfl, rfl, rfl, rfl, rfl, rfl, rfl, rfl, rfl, rfl, rfl, rfl⟩
+
+/-- `${p:-w}` versus `${p-w}` (and `= ? +`): after any parameter, an optional colon followed by one
+    of the four switch symbols starts a switch whose condition is "unset or empty" exactly when the
+    colon is present, and whose word runs to the first closing brace — for every word without `}`. -/
+theorem lexSuffix_switch (colon : Bool) (act : Char) (w rest : List Char)
+    (ha : act = '+' ∨ act = '-' ∨ act = '=' ∨ act = '?') (hw : ∀ c ∈ w, c ≠ '}') :
+    lexSuffix ((if colon then [':'] else []) ++ act :: (w ++ '}' :: rest))
+      = .ok (.switch colon act w, '}' :: rest) := by
+  have aux : ∀ v : List Char, (∀ c ∈ v, c ≠ '}') →
+      (v ++ '}' :: rest).takeWhile (· != '}') = v ∧
+      (v ++ '}' :: rest).dropWhile (· != '}') = '}' :: rest := by
+    intro v
+    induction v with
+    | nil => intro _; simp
+    | cons c t ih =>
+      intro hv
+      have hc : c ≠ '}' := hv c (by simp)
+      have ⟨h1, h2⟩ := ih (fun d hd => hv d (by simp [hd]))
+      simp only [List.cons_append, List.takeWhile_cons, List.dropWhile_cons]
+      simp [hc, h1, h2]
+  have ⟨htw, hdw⟩ := aux w hw
+  have hne : act ≠ ':' := by rcases ha with h | h | h | h <;> subst h <;> decide
+  have hact : (act == '+' || act == '-' || act == '=' || act == '?') = true := by
+    rcases ha with h | h | h | h <;> subst h <;> decide
+  cases colon with
+  | true =>
+    simp only [if_true, List.singleton_append, lexSuffix, List.head?_cons, List.tail_cons]
+    simp [hact, htw, hdw]
+  | false =>
+    simp only [Bool.false_eq_true, if_false, List.nil_append, lexSuffix, List.head?_cons]
+    have : (some act == some ':') = false := by simp [hne]
+    simp [this, hact, htw, hdw]
+
+example : lexSuffix ":-a b}c".toList = .ok (.switch true '-' "a b".toList, "}c".toList) := rfl
 
 /-! ## Quote removal -/
 
